@@ -230,33 +230,34 @@ def time_ordered_integral(A1, A2, A3, beta):
 
 
 def chi_value(pred, paths, beta, n1, n2, n3):
-    """chi(n1, n2; n3) from the specification's paths [perm, a, b, c, d, re, im] (numerators over D^4); returns (value, sum of |terms|)"""
+    """chi(n1, n2; n3) from the specification's paths [perm, a, b, c, d, re, im] (numerators over D^4); returns (value, sum of |terms|).
+    Paths with the same ordering, the same three energy differences and the same E_a share their integral: numerators are summed first."""
     w, E = weights(pred, beta)
     D4 = pred["D"] ** 4
     b = mp.mpf(beta)
     fr = {1: 2 * n1 + 1, 2: 2 * n2 + 1, 3: -(2 * n3 + 1)}          # c_i(t1): +w1, c_j(t2): +w2, c^+_k(t3): -w3
     Ei = [int(e) for e in pred["E"]]
     e0 = min(Ei)
-    val, tot = mp.mpc(0), mp.mpf(0)
-    cache = {}
+    Z = sum(mp.e ** (-b * (e - e0)) for e in Ei)
+    groups = {}
     for (pi, a, bb, cc, d, re, im) in paths:
+        key = (pi, Ei[a] - Ei[bb], Ei[bb] - Ei[cc], Ei[cc] - Ei[d], Ei[a])
+        g = groups.get(key)
+        if g is None:
+            groups[key] = [re, im, abs(complex(re, im))]
+        else:
+            g[0] += re
+            g[1] += im
+            g[2] += abs(complex(re, im))
+    val, tot = mp.mpc(0), mp.mpf(0)
+    for key, (re, im, mag) in groups.items():
+        pi, d1, d2, d3, ea = key
         p = PERMS3[pi - 1]
-        key = (pi, Ei[a] - Ei[bb], Ei[bb] - Ei[cc], Ei[cc] - Ei[d])
-        if key not in cache:
-            A1 = (key[1], fr[p[0]])
-            A2 = (key[2], fr[p[1]])
-            A3 = (key[3], fr[p[2]])
-            cache[key] = time_ordered_integral(A1, A2, A3, b)
+        terms = time_ordered_integral((d1, fr[p[0]]), (d2, fr[p[1]]), (d3, fr[p[2]]), b)
         # evaluate at T = beta with the weight folded in:  w_a e^{beta e} = exp(-beta (E_a - E_0 - e)) / Z  (no overflow)
-        s = mp.mpc(0)
-        un = mp.e ** (-b * (Ei[a] - e0))
-        Z = un / w[a] if w[a] != 0 else None
-        for (c_, k, L) in cache[key]:
-            ew = mp.e ** (-b * (Ei[a] - e0 - L[0])) / (Z if Z is not None else 1)
-            if Z is None:
-                ew = mp.mpf(0)
-            s += c_ * b ** k * ew * (-1) ** (L[1] % 2)
-        t = PERMSIGN[pi - 1] * mp.mpc(re, im) / D4 * s
-        val += t
-        tot += abs(t)
+        s_ = mp.mpc(0)
+        for (c_, k, L) in terms:
+            s_ += c_ * b ** k * (mp.e ** (-b * (ea - e0 - L[0])) / Z) * (-1) ** (L[1] % 2)
+        val += PERMSIGN[pi - 1] * mp.mpc(re, im) / D4 * s_
+        tot += mag / D4 * abs(s_)
     return val, tot
